@@ -141,20 +141,25 @@ def run(ctx) -> None:
     def in_loop(node: ast.AST) -> bool:
         return any(node is x for x in ast.walk(loop))
 
+    # locals that hold the value resolved from the loop's reference: assigned from <loopvar>.resolve(..), or from another
+    # such local (possibly `x or ""`); identified by their definitions, not by their names
+    own_names = set()
+    changed = True
+    while changed:
+        changed = False
+        for n in source.walk_own(fn):
+            if isinstance(n, ast.Assign) and len(n.targets) == 1 and isinstance(n.targets[0], ast.Name) and n.targets[0].id not in own_names:
+                v = n.value
+                cands = list(v.values) if isinstance(v, ast.BoolOp) else [v]
+                if any((isinstance(c, ast.Call) and last_attr(c) == "resolve" and dotted(c.func.value) == loopvar)
+                       or (isinstance(c, ast.Name) and c.id in own_names) for c in cands):
+                    own_names.add(n.targets[0].id)
+                    changed = True
+
     def value_is_own(v: ast.AST) -> bool:
-        """v is (a local bound to) reference_value = <loop reference>.resolve(...)"""
         if isinstance(v, ast.Lambda):
             v = v.body
-        if not isinstance(v, ast.Name):
-            return False
-        names = {v.id}
-        for x in match.assigned_value(fn, v.id):
-            if isinstance(x, ast.Name):
-                names.add(x.id)
-        if "reference_value" not in names:
-            return False
-        rv = match.assigned_value(fn, "reference_value")
-        return any(isinstance(x, ast.Call) and last_attr(x) == "resolve" and dotted(x.func.value) == loopvar for x in rv)
+        return isinstance(v, ast.Name) and v.id in own_names
 
     def key_root_is_loopvar(k: Optional[ast.AST]) -> bool:
         root = k
@@ -223,8 +228,13 @@ def run(ctx) -> None:
                "instead of being inserted verbatim" % short(v, 40), construct=short(s.call, 100) + " <- verbatim")
 
     # ---------------- R3 / R6 --------------------------------------------------------------------------
+    # the argument string: the local initialised from <..>.get('arguments')
+    arg_names = {t.id for n in source.walk_own(fn) if isinstance(n, ast.Assign) and isinstance(n.value, ast.Call) and last_attr(n.value) == "get"
+                 and n.value.args and isinstance(n.value.args[0], ast.Constant) and n.value.args[0].value == "arguments"
+                 for t in n.targets if isinstance(t, ast.Name)}
+    ctx.require(bool(arg_names), "anchor missing: <local> = ....get('arguments') in resolveArguments")
     arg_assigns = [n for n in source.walk_own(fn) if isinstance(n, ast.Assign)
-                   and any(isinstance(t, ast.Name) and t.id == "arguments" for t in n.targets)]
+                   and any(isinstance(t, ast.Name) and t.id in arg_names for t in n.targets)]
     for n in arg_assigns:
         v = n.value
         is_site = any(v is s.call for s in sites)
